@@ -4,6 +4,7 @@ import sys
 
 sys.path.insert(0, os.path.dirname(os.path.dirname(os.path.abspath(__file__))))
 import storeprop  # noqa: E402
+import core  # noqa: E402
 
 ID = "C04"
 THEOREMS = ["c04_delete_is_delete_all", "c04_no_dangling", "c04_victims_unreachable", "c04_attrs_kept",
@@ -91,6 +92,19 @@ def block_content(v, h):
 def run(ctx):
     st = storeprop.run(ctx, ID, THEOREMS, "Props/C04.v", PROFILE, (30, 45), 100, 900, predicate, RULE,
                        known_matchers={"block_content": block_content})
+    # the known finding block_content on the one kind of link that may still cross blocks: dimension links
+    bc = ctx.run_impl("impl_blockcontent.py", {})
+    yields = [d for d in bc["dimensions"] if d.get("still_yields")]
+    ctx.coverage["block_content_witness"] = bc
+    if yields:
+        kfe = [e for e in core.load_known(ID) if e.get("match") == "block_content"]
+        if kfe:
+            ctx.known_hits.append("%s (%d of 3 linked dimensions in this run)" % (kfe[0]["what"], len(yields)))
+        elif not ctx.violations:
+            rp = ctx.write_replay("%s-blockcontent-seed%d.json" % (ID, ctx.seed), {
+                "property": ID, "kind": "a dimension link still yields data of a deleted block", "input": {"runner": "impl_blockcontent.py"},
+                "observed": bc})
+            ctx.violation("a dimension link still yields data of a deleted block: %r" % (yields[0],), rp)
     # entities that are merely NAMED like the id of the victim (the model cannot express a name that is an id: ids are
     # numbers there) - implementation only: 11 kinds of victim x 4 ways of addressing it x 5 kinds of namesake
     recs = ctx.run_impl("impl_idnames.py", {})
